@@ -283,6 +283,71 @@ N("C11", "orthogonal-method", ANG, "orthogonal", "        return null(a.dv * b.d
 N("C11", "clamp-other-nesting", U + "vector.py", "Vector.angle", "max(-1, min(1, cos_angle))", "min(1, max(-1, cos_angle))")
 N("C11", "acute-ge", C + "acute.py", "acute", "if rad > 0.5 * math.pi:", "if rad >= math.pi / 2:")
 
+# =========================================================================== C14
+PG = G + "polygon.py"
+PH = G + "polyhedron.py"
+F("C14", "circle-moves-centre", PG, "get_circle_point_list", "copy.deepcopy(center).move(", "center.move(", rule="R14.1")
+F("C14", "parallelogram-moves-base", PG, "ConvexPolygon.Parallelogram", "copy.deepcopy(base_point).move(v1), ", "base_point.move(v1), ", rule="R14.1")
+F("C14", "parallelepiped-moves-base", PH, "ConvexPolyhedron.Parallelepiped", "p_diag = copy.deepcopy(base_point).move(v1).move(v2).move(v3)",
+  "p_diag = base_point.move(v1).move(v2).move(v3)", rule="R14.1")
+F("C14", "cylinder-moves-centre", PH, "ConvexPolyhedron.Cylinder", "top_point = copy.deepcopy(circle_center).move(height_vector)",
+  "top_point = circle_center.move(height_vector)", rule="R14.1")
+F("C14", "cone-negates-vector-in-place", PH, "ConvexPolyhedron.Cone", "    import copy\n", "    import copy\n    height_vector[0] = height_vector[0] * 1\n", rule="R14.1")
+F("C14", "sphere-moves-centre-in-loop", PH, "ConvexPolyhedron.Sphere", "center=copy.deepcopy(center).move(height_i * z_unit_vector())",
+  "center=center.move(height_i * z_unit_vector())", rule="R14.1")
+F("C14", "one-sided-axis-test", PG, "get_circle_point_list", "if angle_to_x < SMALL_ANGLE or angle_to_x > math.pi - SMALL_ANGLE:",
+  "if angle_to_x < SMALL_ANGLE:", rule="R14.2", note="the original defect")
+F("C14", "axis-test-too-wide", PG, "get_circle_point_list", "if angle_to_x < SMALL_ANGLE or angle_to_x > math.pi - SMALL_ANGLE:",
+  "if angle_to_x < 1.5 or angle_to_x > math.pi - SMALL_ANGLE:", rule="R14.2", note="within 1.5 rad of x does not exclude y")
+F("C14", "same-axis-both-branches", PG, "get_circle_point_list", "        base_vector = y_unit_vector()", "        base_vector = x_unit_vector()", rule="R14.2")
+F("C14", "n-guard-1", PG, "get_circle_point_list", "if n <= 2:", "if n <= 1:", rule="R14.3")
+F("C14", "cylinder-no-modulo", PH, "ConvexPolyhedron.Cylinder", "end = (i + 1) % len(top_circle_point_list)", "end = i + 1", rule="R14.4")
+F("C14", "cone-short-range", PH, "ConvexPolyhedron.Cone", "for i in range(len(circle_point_list)):", "for i in range(len(circle_point_list) - 1):", rule="R14.4")
+F("C14", "sphere-wrong-modulus", PH, "ConvexPolyhedron.Sphere", "end = (i + 1) % n1", "end = (i + 1) % n2", rule="R14.4")
+N("C14", "two-sided-via-acute-like", PG, "get_circle_point_list", "if angle_to_x < SMALL_ANGLE or angle_to_x > math.pi - SMALL_ANGLE:",
+  "if angle_to_x > math.pi - SMALL_ANGLE or angle_to_x < SMALL_ANGLE:")
+N("C14", "inline-angle", PG, "get_circle_point_list",
+  "    angle_to_x = normal.angle(x_unit_vector())\n    if angle_to_x < SMALL_ANGLE or angle_to_x > math.pi - SMALL_ANGLE:",
+  "    if normal.angle(x_unit_vector()) < SMALL_ANGLE or normal.angle(x_unit_vector()) > math.pi - SMALL_ANGLE:")
+N("C14", "copy-into-local", PG, "get_circle_point_list",
+  "        point_list.append(copy.deepcopy(center).move(v1 * math.cos(angle_i) + v2 * math.sin(angle_i)))",
+  "        c = copy.deepcopy(center)\n        c.move(v1 * math.cos(angle_i) + v2 * math.sin(angle_i))\n        point_list.append(c)")
+N("C14", "fresh-point-instead-of-copy", PH, "ConvexPolyhedron.Cone", "top_point = copy.deepcopy(circle_center).move(height_vector)",
+  "top_point = Point(circle_center.pv() + height_vector)")
+N("C14", "start-rename", PH, "ConvexPolyhedron.Cylinder", "start", "first", count=0)
+N("C14", "n-lt-3", PG, "get_circle_point_list", "if n <= 2:", "if n < 3:")
+
+# =========================================================================== C20
+F("C20", "segment-no-deepcopy", G + "segment.py", "Segment.__init__", "    a = copy.deepcopy(a)\n    b = copy.deepcopy(b)\n", "", rule="R20.3")
+F("C20", "halfline-one-deepcopy", G + "halfline.py", "HalfLine.__init__", "    a = copy.deepcopy(a)\n", "", rule="R20.3")
+F("C20", "polygon-no-deepcopy", PG, "ConvexPolygon.__init__", "points = copy.deepcopy(pts)", "points = pts", rule="R20.3")
+F("C20", "polyhedron-no-deepcopy", PH, "ConvexPolyhedron.__init__", "self.convex_polygons = list(copy.deepcopy(convex_polygons))",
+  "self.convex_polygons = list(convex_polygons)", rule="R20.3")
+F("C20", "polygon-shallow-copy", PG, "ConvexPolygon.__init__", "points = copy.deepcopy(pts)", "points = list(pts)", rule="R20.3")
+F("C20", "line-keeps-point-vector", G + "line.py", "Line.__init__", "        self.dv = b.pv() - self.sv", "        self.dv = b.pv() - self.sv\n        self.anchor = b",
+  rule="R20.3")
+F("C20", "query-moves-operand", C + "aux_calc.py", "get_segment_from_point_list", "p_start = copy.deepcopy(p0).move(", "p_start = p0.move(", rule="R20.1")
+F("C20", "intersection-handler-moves-operand", INTER, "inter_point_segment", "    if p in s:", "    s.start_point.move(Vector(0, 0, 0))\n    if p in s:", rule="R20.1")
+F("C20", "area-memo-on-self", PG, "ConvexPolygon.area", "    return area", "    self._area_cache = area\n    return area", rule="R20.1")
+F("C20", "module-level-cache", C + "distance.py", None, "def distance(a, b):", "_CACHE = {}\n\ndef distance(a, b):\n    _CACHE[id(a), id(b)] = None", rule="R20.1", count=1)
+F("C20", "eq-sorts-operand", PG, "ConvexPolygon.__eq__", "        return hash(self) == hash(other)", "        other.points = tuple(sorted(other.points, key=hash))\n        return hash(self) == hash(other)", rule="R20.1")
+F("C20", "hash-normalises-in-place", G + "halfline.py", "HalfLine.__hash__", "    return hash(", "    self.vector = self.vector.normalized()\n    return hash(", rule="R20.1")
+F("C20", "contains-appends", PH, "ConvexPolyhedron.__contains__", "    if isinstance(other, Point):\n", "    if isinstance(other, Point):\n        self.point_set.add(other)\n", rule="R20.1")
+F("C20", "solve-on-stored-matrix", G + "plane.py", "Plane.parametric", "s = solve([list(self.n) + [0]])", "self._m = [list(self.n) + [0]]\n    s = solve(self._m)", rule="R20.1")
+F("C20", "move-mutates-vector", G + "point.py", "Point.move", "        self.x += v[0]", "        v[0] = v[0] + 0\n        self.x += v[0]", rule="R20.1")
+F("C20", "global-counter", C + "angle.py", None, "def angle(a, b):", "N_CALLS = 0\n\ndef angle(a, b):\n    global N_CALLS\n    N_CALLS += 1", rule="R20.2")
+F("C20", "class-level-list", G + "segment.py", None, "    class_level = 3\n", "    class_level = 3\n    registry = []\n", rule="R20.2")
+F("C20", "deepcopy-hook", G + "point.py", None, "    def pv(self):", "    def __deepcopy__(self, memo):\n        return self\n\n    def pv(self):", rule="R20.4")
+F("C20", "eq-by-identity", G + "point.py", "Point.__eq__", "    if isinstance(other, Point):", "    if self is other:\n        return True\n    if isinstance(other, Point):", rule="R20.4")
+F("C20", "helper-mutates-through-alias", C + "aux_calc.py", "points_in_a_line", "        p0 = points[0]\n", "        p0 = points[0]\n        q = p0\n        q.x += 0\n", rule="R20.1")
+N("C20", "copy-then-alias", G + "segment.py", "Segment.__init__", "    a = copy.deepcopy(a)\n    b = copy.deepcopy(b)\n", "    a0 = copy.deepcopy(a)\n    b0 = copy.deepcopy(b)\n    a = a0\n    b = b0\n")
+N("C20", "deepcopy-of-tuple", G + "halfline.py", "HalfLine.__init__", "    a = copy.deepcopy(a)\n    b = copy.deepcopy(b)\n", "    a, b = copy.deepcopy((a, b))\n")
+N("C20", "local-set-mutation", INTER, "inter_segment_segment", "        point_set = set()\n", "        point_set = set()\n        point_set.add(Point(a.start_point.pv()))\n        point_set.clear()\n")
+N("C20", "fresh-point-moved", C + "aux_calc.py", "get_segment_from_point_list", "p_start = copy.deepcopy(p0).move(", "p_start = Point(p0.pv()).move(")
+N("C20", "sorted-copy-in-eq", PG, "ConvexPolygon.__eq__", "        return hash(self) == hash(other)", "        _ = sorted(other.points, key=hash)\n        return hash(self) == hash(other)")
+N("C20", "solve-on-literal-local", G + "plane.py", "Plane.parametric", "s = solve([list(self.n) + [0]])", "m = [list(self.n) + [0]]\n    s = solve(m)")
+N("C20", "polygon-copy-elementwise", PG, "ConvexPolygon.__init__", "points = copy.deepcopy(pts)", "points = [copy.deepcopy(p) for p in pts]")
+
 
 def catalogue(prop: str) -> List[Mutant]:
     return list(CAT.get(prop, []))
